@@ -307,22 +307,31 @@ impl CodegenContext {
         // Register symbols for all segments
         let path: IdentifierPath = "segments".into();
 
+        // (the segments are put back whatever happens: a name that clashes with what the program defines is an error,
+        // not a reason to lose every segment)
         let segments = std::mem::replace(&mut self.segments, IndexMap::new());
+        let mut result = Ok(());
         for (name, segment) in &segments {
             let path = path.join(name);
 
-            self.add_symbol(
-                path.join("start"),
-                self.symbol(None, segment.range().start as i64, SymbolType::Constant),
-            )?;
-
-            self.add_symbol(
-                path.join("end"),
-                self.symbol(None, segment.range().end as i64, SymbolType::Constant),
-            )?;
+            result = self
+                .add_symbol(
+                    path.join("start"),
+                    self.symbol(None, segment.range().start as i64, SymbolType::Constant),
+                )
+                .and_then(|_| {
+                    self.add_symbol(
+                        path.join("end"),
+                        self.symbol(None, segment.range().end as i64, SymbolType::Constant),
+                    )
+                })
+                .map(|_| ());
+            if result.is_err() {
+                break;
+            }
         }
         self.segments = segments;
-        Ok(())
+        result
     }
 
     /// The values of all symbols, in a form that can be compared between passes
@@ -426,11 +435,14 @@ impl CodegenContext {
                                 && existing.data != symbol.data
                                 && existing.read_only())
                         {
-                            let span = symbol.span.expect("no span provided");
-                            return Err(Diagnostic::error()
-                                .with_message(format!("cannot redefine symbol: {}", &path))
-                                .with_labels(vec![span.to_label()])
-                                .into());
+                            // (a symbol the assembler registers by itself, e.g. 'segments.default.start', has no span:
+                            // then the clash is reported where the program defines that name)
+                            let mut diag = Diagnostic::error()
+                                .with_message(format!("cannot redefine symbol: {}", &path));
+                            if let Some(span) = symbol.span.or(existing.span) {
+                                diag = diag.with_labels(vec![span.to_label()]);
+                            }
+                            return Err(diag.into());
                         }
 
                         // If the symbol already existed but with a different value,
@@ -1522,7 +1534,10 @@ pub fn codegen(
                 errors = e.with_code_map(&ctx.tree.code_map);
             }
         }
-        ctx.after_pass().expect("Could not finalize pass");
+        if let Err(e) = ctx.after_pass() {
+            // (e.g. the program defines a symbol that the assembler registers for a segment)
+            errors.extend(e);
+        }
         let symbol_values = ctx.symbol_values();
 
         #[cfg(feature = "verif")]
